@@ -8,6 +8,8 @@ import time
 SEMANTIC = [
     # (regex on message, kind, property_derived)
     (r"postcondition not satisfied", "ensures", True),
+    (r"unable to prove post-?condition of closure", "closure-ensures", True),
+    (r"unable to prove pre-?condition of closure|closure.*precondition", "closure-requires", True),
     (r"precondition not satisfied", "requires-of-callee", True),
     (r"possible arithmetic underflow/overflow", "overflow", True),
     (r"possible division by zero", "div-by-zero", True),
